@@ -27,7 +27,7 @@ TUPLES = [(0, 0), (), (1,), (1, 2), ((1,), 'a'), (-1, math.inf)]
 LISTS = [[], [1], ['a', "'"], [[1], (2,)], [-3]]
 D2S = [{'u': None, 's': 1}, {'v': None, 's': 1}, {'u': None, 's': 2}, {'s': 1, 'u': None}]
 DICTS = [{'a': 1, 'b': 2}, {}, {'a': 1}, {'a': 1, 'b': 3}, {'a': 1, 'b': 2, 'c': 3}, {'z': [1]}, {'a': math.inf}, {'t': (1,), 'm': -math.inf}]
-NAMES = [None, 'nm', 'P1', 'V01', 'V2x', "q'", 'CLS', 'CLS00001\n']      # CLS: the class's own name
+NAMES = [None, 'nm', 'P1', 'V01', 'V2x', "q'", 'CLS', 'CLS00001\n', 'CLS00002x', 'CLS00003.left']      # CLS: the class's own name
 
 
 class Inner(param.Parameterized):
@@ -262,7 +262,9 @@ def autoname_values(tier):
         return None
     pat = text(call.args[0]) if call is not None else None
     if pat is None:
-        row.update(status='error', error='pattern of param._utils._is_auto_name not recognised in the source')
+        # not an error of the tree under analysis: the function is no longer a single regex match over literals and the class
+        # name, so this kernel does not apply; explicit names with an auto-name prefix are still exercised by the name pool
+        row.update(status='skipped', note='pattern of param._utils._is_auto_name is not a regex built from literals and the class name: kernel not applicable to this tree')
         return row
     how = call.func.attr
     try:
